@@ -218,6 +218,19 @@ def run(ck):
         facts["share_names"] = True
         for strat, gran in ((["random", rng.randrange(10 ** 9), 0.5], "sync"), (["random", rng.randrange(10 ** 9), 0.5], "line")):
             tasks.append({"scen": "metrics", "params": twin, "strat": strat, "gran": gran, "facts": dict(facts)})
+    # the timeout thread is kept busy by one future's slow, refused cancel while the user cancels another future whose
+    # deadline passes meanwhile: only futures a timeout really cancelled are counted
+    for i in range(12 if quick else 120):
+        tq = {"stacks": [{"base": "manual", "workers": 1, "layers": [{"t": "timeout", "T": 430}]}],
+              "jobs": [{"st": 0, "S": 0, "D": [0], "script": [["V", 0]], "C": True, "K": None, "CD": rng.choice([600, 900]), "polls": 1},
+                       {"st": 0, "S": rng.choice([100, 200]), "D": [0], "script": [["V", 0]], "C": True,
+                        "K": rng.choice([450, 500, 560]), "polls": 1}],
+              "comb": [], "snaps": [50, 2000], "shutdown": [], "horizon": 3000}
+        facts = {k: False for k in D7_FACTS}
+        facts["d7"] = False
+        facts.update(describe(tq))
+        tasks.append({"scen": "metrics", "params": tq, "strat": ["random", rng.randrange(10 ** 9), 0.5],
+                      "gran": "line" if i % 3 == 0 else "sync", "facts": dict(facts)})
     # directed two-preemption sweep (line granularity): a client cancels a job at the instant its back-off ends, while
     # the retry thread is between picking the job and removing it from the queue
     rq = {"stacks": [{"base": "manual", "workers": 1, "layers": [{"t": "retry", "attempts": 3, "sleep": 200}]}],
